@@ -93,7 +93,13 @@ def occupied_bounce(ctx: Ctx, rule: str) -> None:
                   and call_name(c.args[0]) == "max"
                   and any(isinstance(x, ast.Constant) and isinstance(x.value, (int, float)) and x.value > 0 for x in c.args[0].args))
             if not ok:
-                problems.append((f"the bounce sleep is not bounded below by a positive constant: {ast.unparse(c) if c is not None else None}", v))
+                problems.append((f"the bounce sleep is not round(max(<permill of the test duration>, <positive constant>), n): {ast.unparse(c) if c is not None else None}", v))
+            # the time accounted as waited is the time actually slept
+            incs = [s_ for k, s_ in v.stmts(lambda s_: isinstance(s_, ast.AugAssign) and ast.unparse(s_.target) == "occupied_wait")]
+            for s_ in incs:
+                if c is not None and ast.unparse(v.canon(s_.value, i)) != ast.unparse(c):
+                    problems.append(("the waiting budget is charged with a different amount than is actually slept "
+                                     f"({ast.unparse(v.canon(s_.value, i))} vs {ast.unparse(c)})", v))
     ctx.expect_sites(rule, n, 2, T.TOT, True, "path through the occupied branch")
     ctx.record(rule, "GUARD", T.TOT, "occupied -> traverse_path = [root]; await asyncio.sleep(round(max(.., positive), ..)); continue; no traversal",
                not problems, {"paths": n, **({"path": problems[0][1].path.describe()} if problems else {})},
